@@ -53,6 +53,25 @@ impl<T: 'static> MemoRef<T> {
         }
     }
 
+    /// `self.kind` is only a hint: a `MemoRef` that went through a memoized function's
+    /// parameter list is reconstructed by the `#[memo]` macro from its `ParamId` alone, i.e. as
+    /// `MemoRefKind::Value`, even if it was created by `intern_ref`. So we fall back to the
+    /// other representation if the stored value is not of the hinted one.
+    fn deref_value<'db>(&self, value: &'db dyn std::any::Any) -> &'db T {
+        let as_value = || value.downcast_ref::<T>();
+        // SAFETY: Caller guarantees that the provided database owns this derived node.
+        let as_raw_ptr = || {
+            value
+                .downcast_ref::<RawPtr<T>>()
+                .map(|ptr| unsafe { ptr.as_ref() })
+        };
+        match self.kind {
+            MemoRefKind::Value => as_value().or_else(as_raw_ptr),
+            MemoRefKind::RawPtr => as_raw_ptr().or_else(as_value),
+        }
+        .expect("Unexpected memoized value type. This is indicative of a bug in Pico.")
+    }
+
     pub fn lookup_tracked<'db>(&self, db: &'db dyn DatabaseDyn) -> &'db T {
         let storage = db.get_storage_dyn();
         let (value, revision) = storage
@@ -62,18 +81,7 @@ impl<T: 'static> MemoRef<T> {
             NodeKind::Derived(self.derived_node_id),
             revision.time_updated,
         );
-        match self.kind {
-            MemoRefKind::Value => value
-                .downcast_ref::<T>()
-                .expect("Unexpected memoized value type. This is indicative of a bug in Pico."),
-            // SAFETY: Caller guarantees that the provided database owns this derived node.
-            MemoRefKind::RawPtr => unsafe {
-                value
-                    .downcast_ref::<RawPtr<T>>()
-                    .expect("Unexpected memoized value type. This is indicative of a bug in Pico.")
-                    .as_ref()
-            },
-        }
+        self.deref_value(value)
     }
 
     pub fn lookup<'db>(&self, db: &'db dyn DatabaseDyn) -> &'db T {
@@ -81,18 +89,7 @@ impl<T: 'static> MemoRef<T> {
         let (value, _) = storage
             .get_derived_node_value_and_revision(self.derived_node_id)
             .expect("Derived node not found. This is indicative of a bug in Pico.");
-        match self.kind {
-            MemoRefKind::Value => value
-                .downcast_ref::<T>()
-                .expect("Unexpected memoized value type. This is indicative of a bug in Pico."),
-            // SAFETY: Caller guarantees that the provided database owns this derived node.
-            MemoRefKind::RawPtr => unsafe {
-                value
-                    .downcast_ref::<RawPtr<T>>()
-                    .expect("Unexpected memoized value type. This is indicative of a bug in Pico.")
-                    .as_ref()
-            },
-        }
+        self.deref_value(value)
     }
 }
 
